@@ -841,6 +841,66 @@ func (c *c16ctx) runLength(li, n int, detail bool, tier string, rgAll *vkit.Rand
 						return nil
 					})
 				}
+				// ONE reader that keeps being used after failed reads: it visits the start of every
+				// segment and returns to every earlier one (0,1,0,2,0,1,...). Each Seek+Read either
+				// fails or returns original plaintext - also right after a read that failed.
+				if seekable && m.cross == "" && n > 0 && (m.Class == "C" || m.Class == "L") {
+					segStart := func(j int) int64 {
+						if j == 0 {
+							return 0
+						}
+						return int64(tinkFirstPlain + (j-1)*tinkPlain)
+					}
+					segs := tinkSegments(n)
+					if segs > 5 {
+						segs = 5
+					}
+					var visits []int
+					for j := 0; j < segs; j++ {
+						visits = append(visits, j)
+						for i := 0; i < j; i++ {
+							visits = append(visits, i)
+						}
+					}
+					_ = c.withReader(idA, mode, func(rc io.ReadCloser) error {
+						sk, ok := rc.(io.Seeker)
+						if !ok {
+							return nil
+						}
+						failedBefore := false
+						for vi, j := range visits {
+							o := segStart(j)
+							if o >= int64(n) {
+								continue
+							}
+							if _, e := sk.Seek(o, io.SeekStart); e != nil {
+								failedBefore = true
+								continue
+							}
+							buf := make([]byte, 96)
+							k, e := io.ReadFull(rc, buf)
+							if e != nil && e != io.EOF && e != io.ErrUnexpectedEOF {
+								failedBefore = true
+								c.rec.Count("reused_reader_reads_failed", 1)
+								continue
+							}
+							e2 := o + int64(k)
+							if e2 > int64(n) || !bytes.Equal(buf[:k], P[o:e2]) {
+								after := "before any failure"
+								if failedBefore {
+									after = "after an earlier read on the same reader had failed"
+								}
+								c.rec.Violation(fmt.Sprintf("seekable/%s:%s/reused-reader-wrong-bytes", m.Family, m.Sub), fmt.Sprintf("after %s, visit %d of one reader (segment %d, %s): Seek(%d)+Read returned %d bytes that are not plaintext[%d:...] without error", m.Desc, vi, j, after, o, k, o), w)
+								break
+							}
+							c.rec.Count("reused_reader_reads_correct_slice", 1)
+							if failedBefore {
+								c.rec.Count("reused_reader_correct_after_failure", 1)
+							}
+						}
+						return nil
+					})
+				}
 				// restore
 				switch m.cross {
 				case "other-part":
